@@ -34,6 +34,10 @@ pub mod algorithm {
 pub mod engine;
 pub mod rate;
 
+#[cfg(feature = "verif-hooks")]
+#[doc(hidden)]
+pub mod verif_hooks;
+
 // ======================================================================
 // Error - PUBLIC
 
